@@ -180,6 +180,8 @@ def gen():
 
 def mutated_source(m):
     lines = open(os.path.join(REPO, m["file"])).read().split("\n")
+    if "\n".join(lines[m["line"] - 1: m["end"]]) != m["old"]:
+        raise RuntimeError("the source changed since `gen`: " + m["file"])
     return "\n".join(lines[: m["line"] - 1] + m["new"].split("\n") + lines[m["end"]:])
 
 
@@ -264,13 +266,81 @@ def work_slot(a):
     return work((m, os.getpid(), tier))
 
 
+def recheck_one(a):
+    """a survivor of the first pass: the own check again (the tree may have changed), then the checks of every other property
+    anchored in the same file"""
+    m, props = a
+    W = "/tmp/msw_%d" % os.getpid()
+    if not os.path.isdir(W):
+        subprocess.run(["git", "-C", REPO, "worktree", "add", "-q", "--detach", W, "HEAD"], check=True)
+    path = os.path.join(W, m["file"])
+    orig = open(os.path.join(REPO, m["file"])).read()
+    res = {k: m[k] for k in ("id", "property", "file", "function", "line", "end", "op", "old", "new")}
+    res["checks"] = {}
+    try:
+        open(path, "w").write(mutated_source(m))
+        env = dict(os.environ, VERIF_REPO_SRC=W + "/src")
+        for pid in props:
+            try:
+                r = subprocess.run(["/verif/check", pid, "--tier", "quick"], capture_output=True, text=True, cwd=H, env=env, timeout=1500)
+                res["checks"][pid] = {"exit": r.returncode, "clauses": sorted(set(re.findall(r"clause=(\S+)", r.stdout)))[:8]}
+                if r.returncode == 2:
+                    res["checks"][pid]["tail"] = (r.stdout + r.stderr)[-500:]
+            except subprocess.TimeoutExpired:
+                res["checks"][pid] = {"exit": "timeout", "clauses": []}
+            if res["checks"][pid]["exit"] == 1:
+                break
+    finally:
+        open(path, "w").write(orig)
+    return res
+
+
+def recheck(argv):
+    from multiprocessing import Pool
+
+    j = int(argv[1]) if argv[:1] == ["-j"] else 4
+    A = anchors()
+    rows = []
+    for f in sorted(os.listdir(OUT)):
+        if f.startswith("results_"):
+            rows += [json.loads(l) for l in open(os.path.join(OUT, f))]
+    jobs = []
+    for r in rows:
+        if r.get("exit") in (1, "suite"):
+            continue
+        try:
+            mutated_source(r)
+        except RuntimeError:
+            continue
+        others = [p for p in sorted(A) if p != r["property"] and r["file"] in A[p]["files"]]
+        jobs.append((r, [r["property"]] + others))
+    print("recheck jobs:", len(jobs))
+    out = open(os.path.join(OUT, "recheck.jsonl"), "w")
+    with Pool(j) as p:
+        for i, res in enumerate(p.imap_unordered(recheck_one, jobs)):
+            out.write(json.dumps(res) + "\n")
+            out.flush()
+            print(i + 1, res["property"], res["id"], res["op"], {k: v["exit"] for k, v in res["checks"].items()}, flush=True)
+
+
 def report():
+    rc = {}
+    rp = os.path.join(OUT, "recheck.jsonl")
+    if os.path.exists(rp):
+        for l in open(rp):
+            r = json.loads(l)
+            rc[(r["property"], r["id"])] = r["checks"]
     rows = []
     for f in sorted(os.listdir(OUT)):
         if f.startswith("results_"):
             rows += [json.loads(l) for l in open(os.path.join(OUT, f))]
     by = {}
     for r in rows:
+        ch = rc.get((r["property"], r["id"]))
+        if ch is not None:   # the second pass decides: own check again, then the checks of the other properties anchored in the file
+            own = ch.get(r["property"], {}).get("exit")
+            r["exit"] = own
+            r["others"] = {k: v["exit"] for k, v in ch.items() if k != r["property"]}
         by.setdefault(r["property"], []).append(r)
     out = ["# Systematic mutation sweep of the anchored code (tools/mutation_sweep.py)", "",
            "First-order mutants of the functions named in each property's anchors; a sample per property; the repository suite first",
@@ -291,8 +361,8 @@ def report():
     if os.path.exists(tp):
         tri = json.load(open(tp))
     for r in sorted(surv, key=lambda r: (r["property"], r["file"], r["line"])):
-        out.append("* **%s** `%s` %s:%d `%s` (%s) exit=%s - %s" % (r["property"], r["id"], r["file"].replace("src/clikit/", ""), r["line"], r["function"], r["op"], r.get("exit"),
-                                                               tri.get(r["id"], "not triaged")))
+        out.append("* **%s** `%s` %s:%d `%s` (%s) exit=%s%s - %s" % (r["property"], r["id"], r["file"].replace("src/clikit/", ""), r["line"], r["function"], r["op"], r.get("exit"),
+                                                                 (", other checks: %s" % r["others"]) if r.get("others") else "", tri.get(r["id"], "not triaged")))
         out.append("  `%s` -> `%s`" % (r["old"].strip().replace("\n", " / ")[:110], r["new"].strip().replace("\n", " / ")[:110]))
     open(os.path.join(H, "docs", "mutation_sweep.md"), "w").write("\n".join(out) + "\n")
     print("\n".join(out[:30]))
@@ -304,6 +374,8 @@ if __name__ == "__main__":
         gen()
     elif cmd == "run":
         run(sys.argv[2:])
+    elif cmd == "recheck":
+        recheck(sys.argv[2:])
     elif cmd == "report":
         report()
     else:
